@@ -395,6 +395,10 @@ fn run(kvariant: &[Op], init_flags: u8, prefix: &[usize], http_every_step: bool,
     });
     let mut out = out;
     for (mask, name) in ino.events() {
+        if name == "status.tag" && mask & (libc::IN_DELETE | libc::IN_MOVED_FROM) != 0 {
+            out.problems.push(("status-tag-removed".into(), format!("the published status.tag was removed / moved away (inotify mask {:#x}) instead of being replaced by one rename: for a moment provisioning looks unfinished again", mask)));
+            break;
+        }
         if name == "status.tag" && mask & (libc::IN_MODIFY | libc::IN_CLOSE_WRITE | libc::IN_CREATE) != 0 {
             out.problems.push(("status-tag-written-in-place".into(), format!("status.tag was created/modified in place (inotify mask {:#x}) instead of being replaced by a rename", mask)));
             break;
